@@ -43,7 +43,8 @@ def _resolve_enclosing_class(qualified_name: str) -> Optional[Type]:
     for number_of_module_parts in range(len(parts) - 1, 0, -1):
         try:
             found = importlib.import_module(".".join(parts[:number_of_module_parts]))
-        except Exception:
+        except (Exception, SystemExit):
+            # as for the module of the tag itself: whatever keeps it from being imported, also a script that exits
             continue
         for name in parts[number_of_module_parts:]:
             found = vars(found).get(name)
